@@ -326,7 +326,7 @@ package iavl
 //@ func (*nodeDB).GetRoot(ndb, version) (key, err)
 //@   props C13 C14
 //@   requires ndb != nil && ndb.db != nil
-//@   modifies *
+//@   modifies nodeDB.legacyLatestVersion[*], nodeDB.mtx[*]
 
 //@ func (*nodeDB).legacyRootKey(ndb, version) (k)
 //@   assumed formats 'r' + 8-byte big-endian version through the generic keyformat.KeyFormat (variadic, reflection-like type switch: outside the verified subset)
@@ -762,4 +762,27 @@ package iavl
 //@   props C15
 //@   nosafety
 //@   callsite extractStateChanges$1 [prev-exhausted] prevIter.err != nil || len(prevIter.nodesToVisit) == 0
+//@   callsite NodeIterator).Next [skip-only-shared] arg0 == prevIter && arg1 == (sharedNode != nil && (node == sharedNode || ord(node.hash) == ord(sharedNode.hash)))
+//@   callsite extractStateChanges$3 [orphan-leaf] arg0 == node && !shared && node.subtreeHeight == 0
+//@   modifies *
+
+// the same walk: a previous subtree is skipped only when it IS the current
+// shared node (same object or same hash); candidates for sharing in the new
+// version are exactly the nodes not younger than the previous version
+//@ func (*nodeDB).extractStateChanges$2() (err)
+//@   props C15
+//@   nosafety
+//@   callsite NodeIterator).Next [candidate] arg1 == (node.nodeKey.version <= prevVersion)
+//@   modifies *
+
+// pairing of an orphaned leaf of the previous version with the pending new
+// leaves (both in key order): smaller new keys are insertions; an equal key is
+// an update carrying the NEW value; otherwise the orphan is a removal
+//@ func (*nodeDB).extractStateChanges$3(orphaned) (err)
+//@   props C15
+//@   nosafety
+//@   callsite freevar:receiver@1 [insertion] !arg0.Delete && arg0.Key == newLeave.key && arg0.Value == newLeave.value && ord(orphaned.key) > ord(newLeave.key)
+//@   callsite freevar:receiver@2 [removal-before-new] arg0.Delete && arg0.Key == orphaned.key && ord(orphaned.key) < ord(newLeave.key)
+//@   callsite freevar:receiver@3 [update] !arg0.Delete && arg0.Key == newLeave.key && arg0.Value == newLeave.value && ord(orphaned.key) == ord(newLeave.key)
+//@   callsite freevar:receiver@4 [removal-no-new] arg0.Delete && arg0.Key == orphaned.key
 //@   modifies *
